@@ -283,18 +283,8 @@ func newInliner(pk *pkgView, known map[string]bool) *inliner {
 		if reach(obj) {
 			continue
 		}
-		// the function must not be used as a value (only called)
-		usedAsValue := false
-		for id, o := range pk.TypesInfo.Uses {
-			if o == types.Object(obj) {
-				if !in.isCallFun(id) {
-					usedAsValue = true
-				}
-			}
-		}
-		if usedAsValue {
-			continue
-		}
+		// (a function that is also used as a value is still expanded where it is called; it is
+		// only removed when nothing refers to it any more)
 		in.eligible[obj] = true
 	}
 	return in
@@ -1093,6 +1083,39 @@ func (in *inliner) declaresName(n ast.Node, name string) bool {
 	return found
 }
 
+// sameNameArgument: the argument is a local variable of the caller that has the parameter's own name and
+// type, neither is ever assigned (in the callee body / anywhere in the calling function): the binding
+// `x := x` would only rename the variable apart from itself, which hides it from closures of the caller
+// that captured it, so the body is left to refer to the caller's variable directly.
+func (in *inliner) sameNameArgument(nm *ast.Ident, arg ast.Expr, pt types.Type, body *ast.BlockStmt) bool {
+	info := in.pkg.TypesInfo
+	id, ok := stripParens(arg).(*ast.Ident)
+	if !ok || id.Name != nm.Name || in.curDecl == nil {
+		return false
+	}
+	v, ok := info.Uses[id].(*types.Var)
+	if !ok || v.IsField() || v.Parent() == in.pkg.Types.Scope() || !types.Identical(v.Type(), pt) {
+		return false
+	}
+	pobj := info.Defs[nm]
+	if pobj == nil || !in.readOnlyIn(pobj, body, false) || !in.readOnlyIn(v, in.curDecl.Body, false) {
+		return false
+	}
+	// every mention of the name in the body is the parameter (nothing placed there this round)
+	resolved := true
+	ast.Inspect(body, func(m ast.Node) bool {
+		if x, ok := m.(*ast.Ident); ok && x.Name == nm.Name {
+			if info.Uses[x] != pobj && info.Defs[x] != pobj {
+				if _, isSel := info.Uses[x].(*types.Var); !isSel || !info.Uses[x].(*types.Var).IsField() {
+					resolved = false
+				}
+			}
+		}
+		return resolved
+	})
+	return resolved
+}
+
 // paramSubstitutable: the parameter can be replaced textually by its argument
 // instead of being bound to a new variable, which keeps the caller's values
 // recognisable:
@@ -1276,6 +1299,9 @@ func (in *inliner) expandCallMode(ce *ast.CallExpr, file *ast.File, depth int, s
 				sub[pobj] = arg
 				return true
 			}
+			if in.sameNameArgument(nm, arg, pt, tg.body) {
+				return true
+			}
 		} else {
 			fresh++
 			name = fmt.Sprintf("%s_p%d", tag, fresh)
@@ -1323,6 +1349,15 @@ func (in *inliner) expandCallMode(ce *ast.CallExpr, file *ast.File, depth int, s
 		} else {
 			fresh++
 			name = fmt.Sprintf("%s_p%d", tag, fresh)
+		}
+		if !substituted && nm != nil && nm.Name != "_" {
+			if fsel, ok := ce.Fun.(*ast.SelectorExpr); ok {
+				if _, isID := stripParens(ra).(*ast.Ident); isID {
+					if in.sameNameArgument(nm, stripParens(fsel.X), sig.Recv().Type(), tg.body) {
+						substituted = true
+					}
+				}
+			}
 		}
 		if !substituted {
 			lhs = append(lhs, ident(name))
@@ -2535,22 +2570,25 @@ func (in *inliner) findClosures(fd *ast.FuncDecl) {
 	cands := map[types.Object]*closureInfo{}
 	ast.Inspect(fd.Body, func(n ast.Node) bool {
 		as, ok := n.(*ast.AssignStmt)
-		if !ok || as.Tok != token.DEFINE || len(as.Lhs) != 1 || len(as.Rhs) != 1 {
+		if !ok || as.Tok != token.DEFINE || len(as.Lhs) != len(as.Rhs) {
 			return true
 		}
-		id, ok := as.Lhs[0].(*ast.Ident)
-		lit, ok2 := as.Rhs[0].(*ast.FuncLit)
-		if !ok || !ok2 || id.Name == "_" {
-			return true
+		// also one of several variables of a parallel definition (a bound function parameter)
+		for i := range as.Lhs {
+			id, ok := as.Lhs[i].(*ast.Ident)
+			lit, ok2 := as.Rhs[i].(*ast.FuncLit)
+			if !ok || !ok2 || id.Name == "_" {
+				continue
+			}
+			obj := in.pkg.TypesInfo.Defs[id]
+			if obj == nil {
+				continue
+			}
+			if bad, n := bodyInlinable(lit.Body); bad || n > 120 {
+				continue
+			}
+			cands[obj] = &closureInfo{obj: obj, lit: lit, def: as}
 		}
-		obj := in.pkg.TypesInfo.Defs[id]
-		if obj == nil {
-			return true
-		}
-		if bad, n := bodyInlinable(lit.Body); bad || n > 120 {
-			return true
-		}
-		cands[obj] = &closureInfo{obj: obj, lit: lit, def: as}
 		return true
 	})
 	if len(cands) == 0 {
@@ -2568,6 +2606,21 @@ func (in *inliner) findClosures(fd *ast.FuncDecl) {
 			if ci := cands[in.pkg.TypesInfo.Uses[id]]; ci != nil {
 				good := false
 				if len(stack) >= 1 {
+					// `_ = f` keeps an otherwise unused variable alive: not a use
+					if as, ok := stack[len(stack)-1].(*ast.AssignStmt); ok && as.Tok == token.ASSIGN && len(as.Lhs) == len(as.Rhs) {
+						blank := false
+						for i := range as.Rhs {
+							if as.Rhs[i] == ast.Expr(id) {
+								if l, ok := as.Lhs[i].(*ast.Ident); ok && l.Name == "_" {
+									blank = true
+								}
+							}
+						}
+						if blank {
+							stack = append(stack, n)
+							return true
+						}
+					}
 					if ce, ok := stack[len(stack)-1].(*ast.CallExpr); ok && ce.Fun == ast.Expr(id) {
 						good = true
 						if len(stack) >= 2 {
@@ -2601,19 +2654,53 @@ func (in *inliner) findClosures(fd *ast.FuncDecl) {
 	}
 }
 
-// dropExpandedClosures removes the definitions of closures all of whose calls were expanded.
+// dropExpandedClosures removes the definitions of closures all of whose calls were expanded (and the
+// blank assignments that kept them alive).
 func (in *inliner) dropExpandedClosures(fd *ast.FuncDecl) {
-	gone := map[ast.Stmt]bool{}
-	for _, ci := range in.closures {
+	gone := map[types.Object]bool{}
+	for obj, ci := range in.closures {
 		if ci.remaining == 0 {
-			gone[ci.def] = true
+			gone[obj] = true
 		}
 	}
 	if len(gone) == 0 {
 		return
 	}
+	info := in.pkg.TypesInfo
 	astutil.Apply(fd.Body, func(c *astutil.Cursor) bool {
-		if st, ok := c.Node().(ast.Stmt); ok && gone[st] {
+		as, ok := c.Node().(*ast.AssignStmt)
+		if !ok || len(as.Lhs) != len(as.Rhs) {
+			return true
+		}
+		var keepL, keepR []ast.Expr
+		touched := false
+		for i := range as.Lhs {
+			drop := false
+			switch as.Tok {
+			case token.DEFINE:
+				if id, ok := as.Lhs[i].(*ast.Ident); ok && gone[info.Defs[id]] {
+					if _, isLit := as.Rhs[i].(*ast.FuncLit); isLit {
+						drop = true
+					}
+				}
+			case token.ASSIGN:
+				if l, ok := as.Lhs[i].(*ast.Ident); ok && l.Name == "_" {
+					if id, ok := as.Rhs[i].(*ast.Ident); ok && gone[info.Uses[id]] {
+						drop = true
+					}
+				}
+			}
+			if drop {
+				touched = true
+				continue
+			}
+			keepL = append(keepL, as.Lhs[i])
+			keepR = append(keepR, as.Rhs[i])
+		}
+		if !touched {
+			return true
+		}
+		if len(keepL) == 0 {
 			if c.Index() >= 0 {
 				c.Delete()
 			} else {
@@ -2621,6 +2708,7 @@ func (in *inliner) dropExpandedClosures(fd *ast.FuncDecl) {
 			}
 			return false
 		}
+		as.Lhs, as.Rhs = keepL, keepR
 		return true
 	}, nil)
 }
